@@ -57,7 +57,14 @@ def xor_keystream(xe):
         if not (isinstance(it, ast.Call) and ast.unparse(it.func) == "zip" and len(it.args) == 2 and isinstance(tgt, ast.Tuple) and len(tgt.elts) == 2
                 and all(isinstance(e, ast.Name) for e in tgt.elts)):
             continue
-        sides = list(zip(tgt.elts, it.args))
+        def dr(a):
+            # keystream = cycle(self.__key); zip(range(len(out)), keystream)
+            if isinstance(a, ast.Name):
+                srcs = value_sources(xe, a, None)
+                if len(srcs) == 1 and srcs[0][0] == "expr" and isinstance(srcs[0][1], ast.Call):
+                    return srcs[0][1]
+            return a
+        sides = list(zip(tgt.elts, [dr(a) for a in it.args]))
         key_side = [(v, a) for v, a in sides if isinstance(a, ast.Call) and ast.unparse(a.func).endswith("cycle") and len(a.args) == 1
                     and isinstance(a.args[0], ast.Attribute) and isinstance(a.args[0].value, ast.Name) and a.args[0].value.id == xe.self_name]
         if len(key_side) != 1:
@@ -70,10 +77,15 @@ def xor_keystream(xe):
             and ast.unparse(darg.args[0].func) == "len" and len(darg.args[0].args) == 1
         if indexed:
             buf = ast.unparse(darg.args[0].args[0])
-            body = [st for st in getattr(owner, "body", []) if isinstance(st, ast.AugAssign) and isinstance(st.op, ast.BitXor) and isinstance(st.target, ast.Subscript)]
-            if body and isinstance(body[0].target.slice, ast.Name) and body[0].target.slice.id == dvar.id and isinstance(body[0].value, ast.Name) \
-                    and body[0].value.id == kvar.id and ast.unparse(body[0].target.value) == buf:
-                return True, "every index of the data is XOR-ed with the key repeated over it"
+            cell = "%s[%s]" % (buf, dvar.id)
+            for st in getattr(owner, "body", []):
+                # buf[i] ^= k   |   buf[i] = buf[i] ^ k   |   buf[i] = k ^ buf[i]
+                if isinstance(st, ast.AugAssign) and isinstance(st.op, ast.BitXor) and ast.unparse(st.target) == cell \
+                        and isinstance(st.value, ast.Name) and st.value.id == kvar.id:
+                    return True, "every index of the data is XOR-ed with the key repeated over it"
+                if isinstance(st, ast.Assign) and len(st.targets) == 1 and ast.unparse(st.targets[0]) == cell and isinstance(st.value, ast.BinOp) \
+                        and isinstance(st.value.op, ast.BitXor) and sorted([ast.unparse(st.value.left), ast.unparse(st.value.right)]) == sorted([cell, kvar.id]):
+                    return True, "every index of the data is XOR-ed with the key repeated over it"
             why = "the loop over the data indices does not XOR buf[i] with the key byte"
             continue
         if isinstance(darg, ast.Name) and isinstance(owner, (ast.GeneratorExp, ast.ListComp)):
@@ -85,7 +97,58 @@ def xor_keystream(xe):
                 why = "the XOR-ed bytes are not collected into bytes(...)"
             else:
                 why = "the generator over (data, key) does not XOR the two bytes"
+    big = xor_bigint(xe)
+    if big is not None:
+        return True, "the data and the key repeated to the data's length are XOR-ed as integers of the same width"
     return False, why
+
+
+def xor_bigint(xe):
+    """third spelling: int.from_bytes(data, o) ^ int.from_bytes(bytes(islice(cycle(key), len(data))), o), turned back with
+    .to_bytes(len(data), o).  Returns the `.to_bytes` call, or None."""
+    def one(a):
+        if isinstance(a, ast.Name):
+            srcs = value_sources(xe, a, None)
+            if len(srcs) == 1 and srcs[0][0] == "expr" and isinstance(srcs[0][1], ast.AST):
+                return srcs[0][1]
+        return a
+
+    def from_bytes(x):
+        x = one(x)
+        if isinstance(x, ast.Call) and ast.unparse(x.func) == "int.from_bytes" and len(x.args) + len(x.keywords) == 2 and x.args:
+            order = x.args[1] if len(x.args) == 2 else next((k.value for k in x.keywords if k.arg == "byteorder"), None)
+            if isinstance(order, ast.Constant):
+                return x.args[0], order.value
+        return None
+
+    def is_len_of(n, dname):
+        n = one(n)
+        return isinstance(n, ast.Call) and ast.unparse(n.func) == "len" and len(n.args) == 1 and ast.unparse(n.args[0]) == dname
+
+    for x in ast.walk(xe.node):
+        if not (isinstance(x, ast.BinOp) and isinstance(x.op, ast.BitXor)):
+            continue
+        a, b = from_bytes(x.left), from_bytes(x.right)
+        if a is None or b is None or a[1] != b[1]:
+            continue
+        for (d, _), (k, _) in ((a, b), (b, a)):
+            if not isinstance(d, ast.Name):
+                continue
+            k = one(k)
+            if isinstance(k, ast.Call) and ast.unparse(k.func) in ("bytes", "bytearray") and len(k.args) == 1:
+                k = one(k.args[0])
+            if not (isinstance(k, ast.Call) and ast.unparse(k.func).endswith("islice") and len(k.args) == 2 and is_len_of(k.args[1], d.id)):
+                continue
+            c = one(k.args[0])
+            if not (isinstance(c, ast.Call) and ast.unparse(c.func).endswith("cycle") and len(c.args) == 1 and isinstance(c.args[0], ast.Attribute)
+                    and isinstance(c.args[0].value, ast.Name) and c.args[0].value.id == xe.self_name):
+                continue
+            # the integer is turned back into exactly len(data) bytes in the same byte order
+            for t in ast.walk(xe.node):
+                if isinstance(t, ast.Call) and isinstance(t.func, ast.Attribute) and t.func.attr == "to_bytes" and len(t.args) == 2 \
+                        and one(t.func.value) is x and is_len_of(t.args[0], d.id) and isinstance(t.args[1], ast.Constant) and t.args[1].value == a[1]:
+                    return t
+    return None
 
 
 def check(ctx):
@@ -124,6 +187,18 @@ def check(ctx):
             left = e
             while isinstance(left, ast.BinOp) and isinstance(left.op, ast.Add):
                 left = left.left
+            # b"".join([iv, body, tail]) / b"".join(parts) with parts a list display: the first part
+            je = e
+            if isinstance(je, ast.Call) and isinstance(je.func, ast.Attribute) and je.func.attr == "join" and isinstance(je.func.value, ast.Constant) \
+                    and je.func.value.value in (b"", "") and len(je.args) == 1:
+                seq = je.args[0]
+                if isinstance(seq, ast.Name):
+                    ss = value_sources(enc, seq, r)
+                    if len(ss) == 1 and ss[0][0] == "expr" and isinstance(ss[0][1], (ast.List, ast.Tuple)):
+                        seq = ss[0][1]
+                if isinstance(seq, (ast.List, ast.Tuple)) and seq.elts:
+                    left = seq.elts[0]
+                    e = ast.BinOp(left=left, op=ast.Add(), right=seq.elts[-1])
             okl = False
             if cbc.args and isinstance(e, ast.BinOp):
                 sl = value_sources(enc, left, r)
@@ -167,8 +242,8 @@ def check(ctx):
     ctx.need(bool(sub_nodes), "AesProvider.decrypt no longer slices its input: vanished anchor")
     for sn in sub_nodes:
         okg, bound = False, None
-        for t, tr in dominating_guards(an, dec, sn):
-            e = t.ast
+        from engine.flow import guard_atoms
+        for e, tr, t in guard_atoms(an, dec, sn):
             if isinstance(e, ast.Compare) and isinstance(e.left, ast.Call) and isinstance(e.left.func, ast.Name) and e.left.func.id == "len" \
                     and len(e.ops) == 1:
                 b = const(model, dec, e.comparators[0])
@@ -238,7 +313,7 @@ def check(ctx):
     ctx.ob("xor.keystream", xe, "for i, c in zip(range(len(buf)), cycle(key)): buf[i] ^= c", xor_ok, why)
     for r in returns_of(an, xe):
         v = r.ast.value
-        okr = isinstance(v, ast.Call) and ast.unparse(v.func) == "bytes" and len(v.args) == 1
+        okr = isinstance(v, ast.Call) and ast.unparse(v.func) == "bytes" and len(v.args) == 1 or (v is not None and v is xor_bigint(xe))
         ctx.ob("xor.returns-buffer", xe, r.ast, okr, "returns the transformed buffer" if okr else "XorProvider.encrypt does not return the transformed buffer", node=r)
 
     # ---------------------------------------------------------------- C08.5 rejections
@@ -246,16 +321,30 @@ def check(ctx):
     gp = model.method("KeyFile", "_get_provider")
     mparam = gp.positional_params[1]
 
-    def gp_decide(e, node):
+    def gp_decide(e, node, sp=None):
         # the key file is open, the requested method is none of the names the function knows
         if isinstance(e, ast.Attribute) and isinstance(e.value, ast.Name) and e.value.id == gp.self_name and "key" in e.attr:
             return True
-        if isinstance(e, ast.Compare) and len(e.ops) == 1 and isinstance(e.left, ast.Name) and e.left.id == mparam:
+
+        def is_method(x):
+            if not isinstance(x, ast.Name):
+                return False
+            if x.id == mparam:
+                return True
+            # a local that, under the assumption, can only hold the parameter (`resolved = method` unless method == 'best')
+            srcs = sp.sources(x, node) if sp is not None and sp.rd is not None else value_sources(gp, x, node)
+            return bool(srcs) and all(k == "param" and p_ == mparam for k, p_ in srcs)
+        if isinstance(e, ast.Compare) and len(e.ops) == 1 and is_method(e.left):
             r, op = e.comparators[0], e.ops[0]
             try:
                 cv = model.const_eval(gp.module, r, gp.cls)
             except (ValueError, KeyError):
                 cv = None
+            if cv is None and isinstance(r, ast.Name):
+                rs = sp.sources(r, node) if sp is not None and sp.rd is not None else value_sources(gp, r, node)
+                vals = {pl.value if k == "expr" and isinstance(pl, ast.Constant) else None for k, pl in rs}
+                if len(vals) == 1 and None not in vals:
+                    cv = vals.pop()        # name = 'aes' (a row of an unrolled dispatch table)
             if isinstance(cv, str) or isinstance(cv, (tuple, list, set, frozenset, dict)):
                 if isinstance(op, (ast.Eq, ast.In)):
                     return False
